@@ -776,6 +776,16 @@ def make_numpy(interp):
                 break
         return k
 
+    def np_einsum(spec, *ops, out=None, **k):
+        spec = spec.replace(" ", "")
+        ops = [A.array_from_nested(o) if isinstance(o, (list, tuple)) else o for o in ops]
+        if spec == "j...,ji...->i..." and ops[0].ndim == 1 and ops[1].ndim == 2:
+            comp, rot = ops
+            n = concrete(comp.shape[0])
+            rc, rr = comp.frozen(), rot.frozen()
+            return A.fresh_array("einsum", (rot.shape[1],), lambda idx: _sum_elements([binop("*", rc((j,)), rr((j, idx[0]))) for j in range(n)]))
+        raise Unsupported(f"einsum `{spec}` with these operand ranks")
+
     def np_mod(a, b):
         return _lift2(lambda x, y: binop("%", x, y), "mod")(a, b)
 
@@ -803,7 +813,7 @@ def make_numpy(interp):
         "divmod": lambda a, b: (_lift2(lambda x, y: to_real(floor_real(binop("/", x, y))), "fdiv")(a, b), np_mod(a, b)),
         "logical_not": _lift1(logical_not, "not", "bool"), "conjugate": lambda x: x, "conj": lambda x: x,
         "real": lambda x: x, "stack": np_stack,
-        "searchsorted": np_searchsorted, "copy": lambda x, **k: x.copy() if isinstance(x, NDArr) else x,
+        "searchsorted": np_searchsorted, "einsum": np_einsum, "asanyarray": np_asarray, "copy": lambda x, **k: x.copy() if isinstance(x, NDArr) else x,
         "pi": PI, "inf": INF, "newaxis": None, "nan": Opaque("nan"), "e": Opaque("np.e"),
         "ndarray": TypeTag("ndarray", None), "number": TypeTag("number", None), "double": TypeTag("float", _to_float),
         "float64": TypeTag("float", _to_float), "int64": TypeTag("int", _to_int), "integer": TypeTag("Integral", None),
